@@ -15,7 +15,10 @@ A simulation is described by a plain (JSON-able) dict::
                       # z-slabs, each cut in y at its own positions, each strip
                       # cut in x at its own positions (all lengths > 0)
                  "order": [c of canonical chunk 0, c of chunk 1, ...]}, ...],
-     "restarts": [{"number": r, "its": [iterations written]}, ...],
+     "restarts": [{"number": r, "its": [iterations written],
+                   # optional: this restart ran on another process count (as in
+                   # aurel's own fixtures): its own cuts / file layout, same grids
+                   "levels": [{"decomp": ..., "order": ...}, ...], "per_proc": bool}, ...],
      "par_in": r}               # restart directory that holds the .par file
 
 Every interior value of every dataset is an exact integer-valued float that
@@ -231,14 +234,17 @@ class Sim:
                 with open(os.path.join(self.simdir, "output-%04d" % r["number"], self.name + ".par"), "w") as f:
                     f.write(self.parfile())
             handles = {}
+            per_proc = r.get("per_proc", d["per_proc"])
             try:
                 for base, members in self.files_for().items():
                     for rl, lev in enumerate(d["levels"]):
+                        if "levels" in r:
+                            lev = dict(lev, **r["levels"][rl])
                         chunks = canonical_chunks(lev["decomp"])
                         n = len(chunks)
                         for j, ch in enumerate(chunks):
                             c = lev["order"][j]
-                            fn = os.path.join(out, base + (".file_%d" % c if d["per_proc"] else "") + ".h5")
+                            fn = os.path.join(out, base + (".file_%d" % c if per_proc else "") + ".h5")
                             if fn not in handles:
                                 handles[fn] = h5py.File(fn, "w")
                                 handles[fn].create_group("Parameters and Global Attributes")
@@ -319,6 +325,14 @@ def random_level(rng, nmax, kmax, gmax, base_max=0, uniform_prob=0.2):
             "base": [rng.randint(0, base_max) for _ in range(3)], "decomp": dec, "order": order}
 
 
+def _redraw(rng, lev, kmax):
+    nx, ny, nz = lev["shape"]
+    dec = random_decomp(rng, nx, ny, nz, kmax)
+    order = list(range(nchunks(dec)))
+    rng.shuffle(order)
+    return dec, order
+
+
 def random_restarts(rng, nrest, every, nits):
     """restart r writes `nits`-ish iterations; a restart starts from a checkpoint
     inside the previous one, so the iteration ranges overlap."""
@@ -351,6 +365,18 @@ def random_desc(rng, name, per_proc=None, grouped=None, nlevels=None, nrest=None
     vars_ = sorted({c for n in req for c in components(n)})
     every = rng.choice((1, 2, 8, 16))
     restarts = random_restarts(rng, nrest, every, nits)
+    for r in restarts[1:]:
+        if rng.random() < 0.4:
+            # this restart ran on a different number of processes
+            for _ in range(50):
+                lv = [dict(zip(("decomp", "order"), _redraw(rng, lev, kmax))) for lev in levels]
+                counts = [len(x["order"]) for x in lv]
+                if not per_proc or (len(set(counts)) == 1 and counts[0] >= 2):
+                    r["levels"] = lv
+                    break
+                if per_proc and set(counts) == {1}:
+                    r["levels"], r["per_proc"] = lv, False    # one process: Carpet drops '.file_0' and ' c='
+                    break
     return {"name": name, "per_proc": per_proc, "grouped": grouped, "m0": rng.random() < 0.3, "vars": vars_,
             "levels": levels, "restarts": restarts, "par_in": rng.choice([r["number"] for r in restarts]),
             "requests": req}
